@@ -103,7 +103,8 @@ Definition pfreq_q (ploidy : Z) (G : list (list Z)) (s : list nat) (j : nat) : Q
 Definition pafd (ploidy : Z) (G : list (list Z)) (w tf : list (list Q)) (p t : nat) (s : list nat) : list Q :=
   map (fun q => sumf (fun j => mget w j q * Qabs' (mget tf j q - pfreq_q ploidy G s j)) (seq 0 p)) (seq 0 t).
 
-(** PAU as coded.  The tfreq setter computes  _tminor = (tfreq == 0), _thet = (0 < tfreq < 1), _tmajor = (tfreq == 1). *)
+(** PAU as coded.  The flag properties compute, on every access, from the target array the problem holds:
+    tminor = (tfreq == 0), thet = (0 < tfreq < 1), tmajor = (tfreq == 1). *)
 Definition t_minor (x : Q) : bool := Qeq_bool x 0.
 Definition t_major (x : Q) : bool := Qeq_bool x 1.
 Definition t_het (x : Q) : bool := negb (Qle_bool x 0) && negb (Qle_bool 1 x).
@@ -115,7 +116,7 @@ Definition pau_unavail_gen (tmajor : Q -> bool) (pf : float) (tfv : Q) : bool :=
 Definition pau_unavail_code : float -> Q -> bool := pau_unavail_gen t_major.
 (** the FORMER code (before the repair): the setter computed  _tmajor = _calc_tminor(tfreq).  Not used by [latent]. *)
 Definition old_pau_unavail_code : float -> Q -> bool := pau_unavail_gen t_minor.
-(** MOGS as coded: tfreq_fix_minor = tfreq <= 0, tfreq_fix_major = tfreq >= 1, heter = neither *)
+(** MOGS as coded: the properties tfreq_fix_minor = tfreq <= 0, tfreq_fix_major = tfreq >= 1, heter = neither (computed on access) *)
 Definition mogs_unavail_code (pf : float) (tfv : Q) : bool :=
   let major_lost := PrimFloat.leb pf 0%float in
   let minor_lost := PrimFloat.leb 1%float pf in
@@ -258,11 +259,22 @@ Definition agree (exact : bool) (impl : option (list Q)) (model : option (list l
 Definition ev_close (impl model : list Q * list Q * list Q) : bool :=
   let '(a, b, c) := impl in let '(x, y, z) := model in qclose_l a x && qclose_l b y && qclose_l c z.
 
-(** * in-place update of the target array after the tfreq setter ran (finding C05-tfreq-inplace-stale-flags)
-    The setters of the PAU / MOGS mixins derive the flags (tminor, thet, tmajor; tfreq_fix_minor/major/heter) from the targets
-    at the time of the assignment [tf_set] and store them; latentfn reads the flags for the availability term and the
-    CURRENT target array [tf_now] for the distance term.  As coded: *)
-Definition pau_stale (pl : Z) (G : list (list Z)) (w tf_set tf_now : list (list Q)) (p t : nat) (s : list nat) : list Q :=
+(** * in-place update of the target array after the tfreq setter ran (finding C05-tfreq-inplace-stale-flags, repaired)
+    As coded NOW: the tfreq setter stores the target array only; the flag properties (tminor, thet, tmajor; tfreq_fix_minor /
+    major / heter) compute their value from the array the problem holds each time latentfn reads them.  A problem whose targets
+    were [tf_set] at the setter and are [tf_now] at the call therefore answers [latent] of its CURRENT data — the session model
+    ([OUpd] of Proofs/C05_Session.v) needs no state beside the data.
+    The FORMER code derived the flags inside the setter and stored them; latentfn read the stored flags for the availability
+    term and the current array for the distance term.  Not used by [latent]; kept as regression witnesses: *)
+Definition old_pau_stale (pl : Z) (G : list (list Z)) (w tf_set tf_now : list (list Q)) (p t : nat) (s : list nat) : list Q :=
   pau_code pl G w tf_set p t s.
-Definition mogs_stale (pl : Z) (G : list (list Z)) (w tf_set tf_now : list (list Q)) (p t : nat) (s : list nat) : list Q :=
+Definition old_mogs_stale (pl : Z) (G : list (list Z)) (w tf_set tf_now : list (list Q)) (p t : nat) (s : list nat) : list Q :=
   mogs_pau_code pl G w tf_set p t s ++ pafd pl G w tf_now p t s.
+(** the data of a problem after the targets were written IN PLACE into the array it holds ([prob.tfreq[...] = tf']) *)
+Definition set_targets (tf' : list (list Q)) (fd : fdata) : fdata :=
+  match fd with
+  | FPafd pl G w _ p t => FPafd pl G w tf' p t
+  | FPau pl G w _ p t => FPau pl G w tf' p t
+  | FMogs pl G w _ p t => FMogs pl G w tf' p t
+  | _ => fd
+  end.
